@@ -305,6 +305,7 @@ type c18Frame struct {
 	SrcIP   obs.Hex `json:"src"`
 	SrcPort int     `json:"sport"`
 	Other   bool    `json:"other"` // other port / other address
+	DF      bool    `json:"df,omitempty"` // the Don't-Fragment bit is set (a complete datagram all the same)
 }
 
 type c18Read struct {
@@ -325,6 +326,14 @@ type c18Deliver struct {
 
 // build returns the frame bytes and, when the frame must be delivered, what.
 func (f c18Frame) build(bound [4]byte, hasBound bool, port int) ([]byte, *c18Deliver) {
+	b, d := f.build0(bound, hasBound, port)
+	if f.DF && len(b) >= 8 {
+		b[6] |= 0x40
+	}
+	return b, d
+}
+
+func (f c18Frame) build0(bound [4]byte, hasBound bool, port int) ([]byte, *c18Deliver) {
 	var src [4]byte
 	copy(src[:], f.SrcIP)
 	dst := bound
@@ -500,6 +509,7 @@ func genC18Read() *rapid.Generator[c18Read] {
 				Cut: rapid.IntRange(0, 2000).Draw(t, "cut"), SrcIP: rapid.SliceOfN(rapid.Byte(), 4, 4).Draw(t, "sip"), SrcPort: rapid.IntRange(0, 65535).Draw(t, "sp")}
 			// coincidences between fields: the sender uses the receiver's own port and/or an address that also appears
 			// elsewhere in the exchange (unconfigured 0.0.0.0, the bound address, limited broadcast)
+			f.DF = rapid.IntRange(0, 2).Draw(t, "df") == 0
 			switch rapid.IntRange(0, 7).Draw(t, "coincide") {
 			case 0:
 				f.SrcPort = c.BoundPt
@@ -530,6 +540,9 @@ func TestC18_ReadTruncations(t *testing.T) {
 		for _, plen := range []int{0, 1, 20, 300, 1500} {
 			f := c18Frame{Kind: 0, IHL: ihl, Payload: bytes.Repeat([]byte{0xcd}, plen), SrcIP: []byte{10, 0, 0, 2}, SrcPort: 67, Pad: plen % 3}
 			c18r.one(t, c18Read{BoundPt: 68, Frames: []c18Frame{f, f}, ExactBuf: true})
+			g := f
+			g.DF = true
+			c18r.one(t, c18Read{BoundPt: 68, Frames: []c18Frame{f, g, f}})
 		}
 		base := c18Frame{Kind: 0, IHL: ihl, Payload: bytes.Repeat([]byte{0xab}, 20), SrcIP: []byte{10, 0, 0, 1}, SrcPort: 67}
 		full, _ := base.build([4]byte{}, false, 68)
